@@ -459,12 +459,13 @@ def run(ck, tier):
     import_findings(ck, 'C03', 'R10', ('R2', 'R7'), 'the response then carries another transaction / unit id than the request, or cannot be built at all',
                     detail_prefixes=('header-binding', 'signedness-mismatch'))
     ck.rule('R9', 'every complete frame for a hosted unit reaches the callback: framer state carried between calls stays coherent (shared with C06 R6/R7)')
-    from .c06 import r6_header_cache_coherence, r7_add_appends, r5_chunk_independent_control
+    from .c06 import r6_header_cache_coherence, r7_add_appends, r5_chunk_independent_control, r14_single_shot_skip_keeps_nothing
     from ..framermodel import framer_paths
     for kind in ('tcp', 'rtu', 'ascii', 'binary'):
         kcls, kf, kfps = framer_paths(cx, kind)
         ck.guard(r6_header_cache_coherence, ck, cx, kind, kcls, kf, kfps, 'R9')
         ck.guard(r7_add_appends, ck, cx, kind, kcls, 'R9')
+        ck.guard(r14_single_shot_skip_keeps_nothing, ck, cx, kind, kcls, kf, kfps, 'R9', ' — each response then answers the previous request')
         ck.guard(r5_chunk_independent_control, ck, cx, kind, kcls, kf, kfps, 'R9', ' — a request whose bytes arrive cut that way stays in the buffer and is never answered')
     ck.assume('request.execute may raise any Exception; context lookup may raise NoSuchSlaveException; other statements of execute() are treated as non-raising')
     ck.assume('byte-exact output streams over generated request histories are not decided')
